@@ -169,6 +169,43 @@ def endpoint_stage(out, cases, rng):
     return n
 
 
+def content_type_stage(out, seed):
+    """request decoding honours Content-Type END TO END: the body is decoded by the encoding the header names and by no other one
+    (the expected value written in the other registered encoding is refused), and a Content-Type that is present - whatever it
+    holds - never makes an optional body absent.  Through the real StdRequestDeserializer / OptionalRequestDeserializer and
+    conjure_endpoints handlers (vh body), blocking and async."""
+    import props.bodyprops as bp
+    docs, meta = [], {}
+    k = 0
+    for enc in ("json", "smile"):
+        for kind in ("std", "optional"):
+            for ct, cls in (("exact", "doc"), ("params", "doc"), ("exact", "otherenc"), ("params", "otherenc"), ("near", "doc"), ("other", "doc"),
+                            ("wildcard", "doc"), ("garbage", "doc"), ("absent", "doc"), ("garbage", "empty"), ("absent", "empty"), ("other", "empty"),
+                            ("exact", "empty"), ("near", "otherenc")):
+                for h in ([] if cls == "empty" else [2], [0] if cls == "empty" else [1, 1], [0, 0] if cls == "empty" else [1, 0, 1]):
+                    for flavour in bp.FLAVOURS:
+                        for rep_ in range(3):      # several draws of the concrete Content-Type text per class
+                            case = {"side": "server", "h": h, "total": sum(h), "par": {"kind": kind, "ct": ct, "limit": -1, "cls": cls, "ret": "", "status": 0}}
+                            case["prop"] = bp.py_mech_prop(case)
+                            cid = "ct%d" % k
+                            d = {"id": cid, "side": "server", "enc": enc, "flavour": flavour, "h": h, "par": case["par"], "seed": seed * 100019 + k, "random_cut": bool(k % 2)}
+                            k += 1
+                            docs.append(json.dumps(d))
+                            meta[cid] = (case, d)
+    n = 0
+    for obs in vc.ndjson(vc.harness_parallel("vh", ["body"], docs, nproc=4)):
+        case, d = meta[obs["id"]]
+        if "skip" in obs:
+            continue
+        n += 1
+        cc = dict(case)
+        cc["enc"] = d["enc"]
+        bp.judge_server(cc, obs, out, {"case": d, "prop": case["prop"], "observed": {k2: v for k2, v in obs.items() if k2 != "id"}}, pid="C11")
+    if n < len(docs) * 3 // 4:
+        raise vc.ToolError("content-type stage: %d of %d cases could be concretised" % (n, len(docs)))
+    return n
+
+
 def run(tier, seed):
     out = vc.Outcome(PID, tier, seed, "model_checking")
     rng = vc.Rng(seed)
@@ -204,6 +241,7 @@ def run(tier, seed):
             meta[cid] = (c, conc)
     text = vc.harness("vh", ["negotiate"], stdin="\n".join(docs) + "\n")
     replayed = endpoint_stage(out, cases, rng)
+    replayed += content_type_stage(out, seed)
     nontrivial = set()
     samples = []
     for obs in vc.ndjson(text):
